@@ -22,6 +22,11 @@ class HarnessError(Exception):
         RAISED["last"] = "%s: %s" % (type(self).__name__, " ".join(map(str, a)))
 
 
+class Wedged(BaseException):
+    """Raised by a simulated socket when the code under test loops without end on one connection (e.g. it keeps calling
+    recv() on a socket that has been at EOF for a hundred calls).  The checks report it as a wedged worker."""
+
+
 class SeamLeak(HarnessError):
     """gunicorn touched an effectful OS name the simulated kernel does not model."""
 
